@@ -157,3 +157,9 @@ def _program(ctx, p, rng):
             ctx.ok('program:reverse', ('pr', name, D, P))
     finally:
         probe.S.suppress = False
+
+
+def finish(ctx):
+    from .. import core
+    ctx.extra['distinct_call_names_shadowed'] = len(ctx.extra.get('shadowed_calls_by_name', {}))
+    return core.finish(ctx, REQUIRED, RULE, assumptions=ASSUMPTIONS)
